@@ -6,12 +6,17 @@ props = {}
 for l in open(os.path.join(VERIF, "properties.jsonl")):
     p = json.loads(l); props[p["id"]] = p
 
-CLAIMED = {
- "C01": dict(
-   text="Machine-checked refinement (Coq 8.16, axiom-free): for every bucket count n>=1, width t>=1 and every add/cancel/fetch/len history the calendar-queue model returns exactly what a two-list priority-queue specification returns; the scan terminates; on the specification: non-decreasing fetch order, exactly-once accounting as a multiset equation, cancelled-never-returned, len formula, cancel-after-fetch no-op. The model is tied to des-cqueue by differential runs (extracted model vs real CQueue on the same generated histories) on every invocation, plus an independent monitor of the property on the implementation's outputs.",
-   note="Trusted: Coq kernel; extraction (ExtrOcamlBasic only) cross-checked in-Coq by vm_compute on a sample each run; harness/generator quality bounds the tie to the code; linked-list pointer code abstracted to lists (C15); integer overflow of ids/Duration out of scope.",
-   technique="Coq refinement proof (forward simulation, invariant J + relation R) + differential correspondence check", design="6/C01"),
-}
+import importlib, sys
+sys.path.insert(0, os.path.join(VERIF, "tools"))
+# every tools/props/cNN.py that defines CLAIM = dict(text=..., note=..., technique=..., design=...) is claimed
+CLAIMED = {}
+for pid in sorted(props):
+    try:
+        mod = importlib.import_module("props." + pid.lower())
+    except ModuleNotFoundError:
+        continue
+    if getattr(mod, "CLAIM", None):
+        CLAIMED[pid] = mod.CLAIM
 NOT_APPLICABLE = {}
 
 checks = []
